@@ -251,7 +251,9 @@ def gen_payload(rng):
     if rng.random() < 0.3:
         return [("pl", P("Binary"))], True
     n = rng.choice([1, 1, 2, 3])
-    names = rng.sample(["p", "q", "amount", "memo", "flag"], n)
+    # (incl. names the generated builders and dispatch use for their own locals: a payload parameter may be called
+    #  gas_limit, msg, id, payload, reply_on, data or result and must still travel unchanged)
+    names = rng.sample(["p", "q", "amount", "memo", "flag", "gas_limit", "msg", "id", "payload", "reply_on", "data", "result"], n)
     return [(nm, rng.choice(PAYLOAD_TYS)) for nm in names], False
 
 
